@@ -38,3 +38,6 @@ Section InPlace.
         end
     end.
 End InPlace.
+
+(* nullseed.go: nullChunkSection.WriteInto (copy path): zero-fill exactly the section's range *)
+Definition write_null (f : bytes) (r : row) : bytes := write_at f (r_start r) (repeat 0%N (r_size r)).
